@@ -14,24 +14,25 @@ import (
 )
 
 type Obligation struct {
-	Name       string // <func>#<kind>.<ordinal>[@site]
-	Func       string
-	Kind       string
-	Goal       string
-	Guard      string
-	Facts      []string // snapshot of facts at this point
-	Decls      []string // snapshot length marker handled via fc
-	NDecl      int
-	NFact      int
-	Pos        string
-	Text       string // human-readable
-	Cover      bool   // must be SAT
-	Inputs     []InputSym
-	Outs       []InputSym
-	RawQuery   string // complete SMT-LIB text (bit-vector lemmas); unsat = lemma holds
-	RawVars    int
-	GroundTest string // Go statements that print VRF-RESULT VIOLATED when the real package shows the violation
-	fc         *FuncCtx
+	Name                                string // <func>#<kind>.<ordinal>[@site]
+	Func                                string
+	Kind                                string
+	Goal                                string
+	Guard                               string
+	Facts                               []string // snapshot of facts at this point
+	Decls                               []string // snapshot length marker handled via fc
+	NDecl                               int
+	NFact                               int
+	Pos                                 string
+	Text                                string // human-readable
+	Cover                               bool   // must be SAT
+	Inputs                              []InputSym
+	Outs                                []InputSym
+	RawQuery                            string // complete SMT-LIB text (bit-vector lemmas); unsat = lemma holds
+	RawVars                             int
+	BoundedOut, BoundedTest, BoundedCmd string
+	GroundTest                          string // Go statements that print VRF-RESULT VIOLATED when the real package shows the violation
+	fc                                  *FuncCtx
 	// results
 	Status  string // unsat sat unknown timeout error
 	Solver  string
@@ -57,10 +58,11 @@ type State struct {
 	pendingKey string                    // JSON: the literal key whose value is written next
 	regions    map[string]region         // ownership: location -> region
 	released   map[string]bool           // regions returned to a pool or handed to another goroutine
+	flagRegs   []flagReg                 // package flag: registered variables
 }
 
 func (s *State) clone() *State {
-	n := &State{pendingKey: s.pendingKey, guard: s.guard, vars: make(map[types.Object]Term, len(s.vars)), alias: make(map[types.Object]ast.Expr, len(s.alias)), ghost: make(map[string]Term, len(s.ghost)), dead: s.dead, held: map[string]string{}, exprAlias: map[types.Object]ast.Expr{}}
+	n := &State{flagRegs: s.flagRegs, pendingKey: s.pendingKey, guard: s.guard, vars: make(map[types.Object]Term, len(s.vars)), alias: make(map[types.Object]ast.Expr, len(s.alias)), ghost: make(map[string]Term, len(s.ghost)), dead: s.dead, held: map[string]string{}, exprAlias: map[types.Object]ast.Expr{}}
 	for k, v := range s.exprAlias {
 		n.exprAlias[k] = v
 	}
